@@ -394,6 +394,11 @@ pub(super) fn translate_literal(l: Literal, ctx: &Context) -> Result<sql_ast::Ex
     Ok(match l {
         Literal::Null => sql_ast::Expr::Value(Value::Null.into()),
         Literal::String(s) | Literal::RawString(s) => {
+            // Double every quote here: sqlparser's printer leaves a quote alone when it follows
+            // a backslash or another quote (it assumes such a value is already escaped), which
+            // let the value end the literal early (`\' OR 1=1 --`) or lose a quote (`''`).
+            // Already doubled quotes are printed unchanged.
+            let s = s.replace('\'', "''");
             sql_ast::Expr::Value(Value::SingleQuotedString(s).into())
         }
         Literal::Boolean(b) => sql_ast::Expr::Value(Value::Boolean(b).into()),
